@@ -65,7 +65,7 @@ func main() {
 	r.Assume("panics converted to HTTP 500 by route.panicCatcher are violations (statement: 'without panicking'); detected from the error.stack_trace log entry that handlerReturnWithError writes, not from the status code; GET /panic is the documented intentional endpoint and is used only as a self-test of that detector")
 	r.Assume("'a status is written' is read as 'the handler returns' (net/http answers 200 for a handler that returns without writing, which is how /1/events reports success)")
 	r.Assume(fmt.Sprintf("worker subprocesses run under RLIMIT_AS=%d GiB; a runtime out-of-memory death is a violation only when the single block requested is ≥ 1 TiB (no deployment can satisfy it, so the outcome does not depend on the guard); smaller ones are counted as guard_oom_cases and not judged", memGuard>>30))
-	r.Assume("hang = no progress of one case within a 150 s harness horizon, reproduced a second time alone in a fresh process; a single stall is never reported")
+	r.Assume("hang = no progress of one case within a 60 s harness horizon, reproduced a second time (alone in a fresh process, or - if it completes alone - in a fresh process after the same preceding cases); a single stall is never reported")
 	r.Assume("byte strings are bounded to every prefix and every single-offset substitution from {00,ff,7f,c1,80,'{'} of the listed seeds (applied to the plain body, and to the gzip/zstd stream), plus the header product; collector-side processing of accepted spans is the decision step of makeDecision replayed on the captured spans with a rules-based and a dynamic sampler, followed by the real DirectTransmission serialisation")
 
 	if cfgFilter != nil {
